@@ -114,6 +114,10 @@ def make_impl(base_cls, methods, bpk: BP, b: Build, rng_seed: int):
                 PLAN.log.append(("enter", PLAN.call_id, pyname))
                 async for request in request_iterator:
                     PLAN.log.append(("req", PLAN.call_id, bytes(request), type(request).__name__))
+                    if PLAN.error_status is not None and getattr(PLAN, "error_early", False):
+                        # refuse after the first request, while the caller is still sending
+                        PLAN.log.append(("raise", PLAN.call_id, PLAN.error_status.name))
+                        raise grpclib.GRPCError(PLAN.error_status, "planned-early")
                 if PLAN.error_status is not None:
                     PLAN.log.append(("raise", PLAN.call_id, PLAN.error_status.name))
                     raise grpclib.GRPCError(PLAN.error_status, "planned")
@@ -127,6 +131,9 @@ def make_impl(base_cls, methods, bpk: BP, b: Build, rng_seed: int):
                 k = 0
                 async for request in request_iterator:
                     PLAN.log.append(("req", PLAN.call_id, bytes(request), type(request).__name__))
+                    if PLAN.error_status is not None and getattr(PLAN, "error_early", False):
+                        PLAN.log.append(("raise", PLAN.call_id, PLAN.error_status.name))
+                        raise grpclib.GRPCError(PLAN.error_status, "planned-early")
                     if k < PLAN.n_responses:
                         r = response_for(rep_mi, k)
                         PLAN.log.append(("resp", PLAN.call_id, bytes(r)))
@@ -258,6 +265,14 @@ async def drive(b: Build, shard, res: Result):
                 if m["cs"]:
                     for src in ("generator", "async-generator", "channel"):
                         scenarios.append({"n_req": rng.choice([0, 1, 2]), "n_resp": 1 if not m["ss"] else 2, "src": src})
+                if m["cs"]:
+                    # request sources that hand control back between items (a real producer), the handler refusing
+                    # while the caller is still sending, and a turn-based conversation (request i+1 only after reply i)
+                    scenarios.append({"n_req": 3, "n_resp": 1 if not m["ss"] else 3, "src": "paced-async-generator"})
+                    scenarios.append({"n_req": 4, "n_resp": 1, "src": "paced-async-generator",
+                                      "error": grpclib.const.Status.FAILED_PRECONDITION, "error_early": True})
+                    if m["ss"]:
+                        scenarios.append({"n_req": 3, "n_resp": 3, "src": "pingpong"})
                 scenarios.append({"n_req": 1, "n_resp": 1, "src": "list", "error": grpclib.const.Status.NOT_FOUND, "error_after": 0})
                 if m["ss"]:
                     scenarios.append({"n_req": 1, "n_resp": 2, "src": "list", "error": grpclib.const.Status.ABORTED, "error_after": 1})
@@ -338,6 +353,22 @@ async def client_call(b, bpk, g, rng, stub, m, sc, call_kwargs):
                     for r in reqs:
                         yield r
                 arg = agen()
+            elif src == "paced-async-generator":
+                async def agen():
+                    for r in reqs:
+                        await asyncio.sleep(0)
+                        await asyncio.sleep(0.002)
+                        yield r
+                arg = agen()
+            elif src == "pingpong":
+                turn: asyncio.Queue = asyncio.Queue()
+
+                async def agen():
+                    for i, r in enumerate(reqs):
+                        if i:
+                            await turn.get()  # the next request is only produced once the previous reply arrived
+                        yield r
+                arg = agen()
             else:
                 arg = AsyncChannel()
                 await arg.send_from(reqs, close=True)
@@ -347,6 +378,8 @@ async def client_call(b, bpk, g, rng, stub, m, sc, call_kwargs):
             async for resp in fn(arg, **call_kwargs):
                 out["responses"].append(bytes(resp))
                 out.setdefault("types", []).append(type(resp).__name__)
+                if sc.get("src") == "pingpong":
+                    turn.put_nowait(1)
         else:
             resp = await fn(arg, **call_kwargs)
             out["responses"].append(bytes(resp))
@@ -363,8 +396,10 @@ async def one_call(b, bpk, g, rng, stub, m, sc, res: Result, w, cid, seen_kwargs
     PLAN.n_responses = sc["n_resp"]
     PLAN.error_status = sc.get("error")
     PLAN.error_after = sc.get("error_after", 0)
+    PLAN.error_early = sc.get("error_early", False)
     res.counters["calls"] += 1
-    scn = f"req{sc['n_req']}-resp{sc['n_resp']}-{sc['src']}" + (f"-err{sc['error'].name}@{sc['error_after']}" if sc.get("error") else "") + ("-bulk" if sc.get("bulk") else "")
+    res.counters["source:" + sc["src"]] += 1
+    scn = f"req{sc['n_req']}-resp{sc['n_resp']}-{sc['src']}" + (f"-err{sc['error'].name}@{'early' if sc.get('error_early') else sc.get('error_after', 0)}" if sc.get("error") else "") + ("-bulk" if sc.get("bulk") else "")
     PLAN.bulk = sc.get("bulk", 0)
     res.distinct.add(f"{s.full_name}/{m['proto']}|{scn}")
     ww = dict(w, scenario=scn)
@@ -383,7 +418,12 @@ async def one_call(b, bpk, g, rng, stub, m, sc, res: Result, w, cid, seen_kwargs
     if enters[0][2] != m["pyname"]:
         res.violation("dispatch", ["wrong-handler", card, "-"], f"{name}: {m['route']} reached handler {enters[0][2]!r}", ww)
     got_reqs = [e[2] for e in log if e[0] == "req"]
-    if got_reqs != out["sent"]:
+    if sc.get("error_early"):
+        # the handler stopped reading: what it saw must be a prefix of what was sent
+        if got_reqs != out["sent"][: len(got_reqs)] or not got_reqs:
+            res.violation("requests", ["requests-differ", card, sc["src"] + "-early-error"],
+                          f"{name}: {m['route']} [{scn}]: handler saw {[x.hex()[:40] for x in got_reqs]} client sent {[x.hex()[:40] for x in out['sent']]}", ww)
+    elif got_reqs != out["sent"]:
         res.violation("requests", ["requests-differ", card, sc["src"]],
                       f"{name}: {m['route']} [{scn}]: handler saw {[x.hex()[:40] for x in got_reqs]} client sent {[x.hex()[:40] for x in out['sent']]}", ww)
     if any(e[3] != b.bp_class(m["req_mi"].full_name).__name__ for e in log if e[0] == "req"):
